@@ -51,6 +51,19 @@ Proof.
   exists r, out. rewrite (read_pil_ignore _ _ ig lines kept _ Hk). auto.
 Qed.
 
+(* what the op "reader_kept_consistent" answers is the hypothesis of reader_builds_ignore *)
+Theorem reader_kept_consistent_accepts text ig :
+  reader_kept_consistent text ig = VBool true ->
+  exists lines r out, parse_lines text = Ok lines /\
+    read_pil base_ctable base_g ig lines (rinit (init base_ctable 0)) = (r, Ok out).
+Proof.
+  unfold reader_kept_consistent. destruct (parse_lines text) as [lines|k]; [|discriminate].
+  destruct (keep_lines ig lines) as [kept|] eqn:Ek; [|discriminate].
+  destruct (decode_all kept) as [[ls ss]|] eqn:Ed; [|discriminate]. intros H. injection H as Hc.
+  destruct (reader_builds_ignore base_ctable 0 2 1 3 4 base_cfg_ok base_plain ig lines kept ls ss Ek Ed Hc) as [r [out [E _]]].
+  exists lines, r, out. split; [reflexivity | exact E].
+Qed.
+
 (* ---- not vacuous: the example system without its reactions and its macrostates ---- *)
 Definition ex_ignore : list pstr := [tReaction; tMacro].
 Definition ex_ignored_ok : bool :=
@@ -66,5 +79,5 @@ Definition ex_ignored_ok : bool :=
       end
   | Err _ => false
   end.
-Example ex_ignore_consistent : ex_ignored_ok = true.
-Proof. vm_compute. reflexivity. Qed.
+Example ex_ignore_consistent : ex_ignored_ok = true /\ reader_kept_consistent ex_sys (Some ex_ignore) = VBool true.
+Proof. vm_compute. split; reflexivity. Qed.
